@@ -18,9 +18,9 @@ def _steps_key(sc):
     return hashlib.sha256(json.dumps(sc["steps"], sort_keys=True).encode()).hexdigest()
 
 
-def run_parts(prop, parts, workdir, trace_module="TraceEngine", trace_cfg="TraceEngine.cfg"):
+def run_parts(prop, parts, workdir, trace_module="TraceEngine", trace_cfg="TraceEngine.cfg", shards=None, harness_bin="vq_run"):
     """parts: [{name, scenarios, configs:[{name,args}]}].  Returns (verdict, events_by_key, nscen)."""
-    vc.build_harness(["vq_run"])
+    vc.build_harness([harness_bin])
     shutil.rmtree(workdir, ignore_errors=True)
     os.makedirs(workdir, exist_ok=True)
     all_events = os.path.join(workdir, "events.ndjson")
@@ -41,14 +41,14 @@ def run_parts(prop, parts, workdir, trace_module="TraceEngine", trace_cfg="Trace
             for c in p.get("configs") or [{"name": "default", "args": []}]:
                 jobs = [(sp, os.path.join(workdir, "ev_%s_%s_%d.ndjson" % (p["name"], c["name"], j))) for j, sp in enumerate(sps)]
                 with concurrent.futures.ThreadPoolExecutor(max_workers=len(jobs)) as ex:
-                    list(ex.map(lambda job: vc.run_harness("vq_run", job[0], job[1], ["--cfg", c["name"]] + c.get("args", []),
+                    list(ex.map(lambda job: vc.run_harness(harness_bin, job[0], job[1], ["--cfg", c["name"]] + c.get("args", []),
                                                            env=c.get("env")), jobs))
                 for _, ep in jobs:
                     with open(ep) as fh:
                         shutil.copyfileobj(fh, out)
                     os.remove(ep)
                 nscen += len(sc)
-    verdict = vc.validate(trace_module, trace_cfg, all_events, os.path.join(workdir, "val"))
+    verdict = vc.validate(trace_module, trace_cfg, all_events, os.path.join(workdir, "val"), shards=shards)
     return verdict, all_events, nscen
 
 
@@ -143,7 +143,8 @@ def measure(path):
 
 
 def finish(prop, tier, seed, t0, verdict, events_path, gen_stats, level="model_checking", rule=None, assumptions=None,
-           extra_cov=None, extra_bad=None, owns=None, configs=None):
+           extra_cov=None, extra_bad=None, owns=None, configs=None, extra_events=None, extra_cfgs=None,
+           harness_bin="vq_run", trace_module="TraceEngine"):
     """Classify mismatches, write replay files and the evidence file, print the interface lines, return exit code."""
     known = vc.load_known()
     bad = list(verdict["bad"]) + list(extra_bad or [])
@@ -155,7 +156,10 @@ def finish(prop, tier, seed, t0, verdict, events_path, gen_stats, level="model_c
         vc.log("   [reported under another property] %s" % json.dumps({k: b.get(k) for k in ("sc", "i", "a", "what", "exp", "obs")}))
     wanted = {(b["sc"], b.get("cfg")) for b in bad}
     evs = index_events(events_path, wanted) if wanted else {}
+    if wanted and extra_events:
+        evs.update(index_events(extra_events, wanted))
     cfgmap = {c["name"]: c for c in (configs or [])}
+    xcfgmap = {c["name"]: c for c in (extra_cfgs or [])}
     rdir = os.path.join(vc.RUN, "replay", prop)
     shutil.rmtree(rdir, ignore_errors=True)
     violations, known_hits = [], {}
@@ -171,12 +175,17 @@ def finish(prop, tier, seed, t0, verdict, events_path, gen_stats, level="model_c
             continue
         os.makedirs(rdir, exist_ok=True)
         rp = os.path.join(rdir, "%s_%s_%s.json" % (b["sc"], b.get("cfg", "default"), b["i"]))
+        twin = None
+        if b.get("what") in ("cfgdiff", "repeat"):
+            # decided by ConfigEq: the replay needs both configurations of the comparison
+            twin = {"trace_module": "ConfigEq", "configs": [xcfgmap.get(b.get("other")) or cfgmap.get(b.get("other")),
+                                                             xcfgmap.get(b.get("cfg")) or cfgmap.get(b.get("cfg"))]}
         with open(rp, "w") as fh:
-            json.dump({"property": prop, "bad": b,
+            json.dump({"property": prop, "bad": b, "twin": twin, "harness": harness_bin, "trace_module": trace_module,
                        "scenario": {"id": b["sc"], "steps": [e["a"] for e in trace if e["a"]["a"] != "reset"]},
                        "cfg": b.get("cfg"),
-                       "cfg_args": cfgmap.get(b.get("cfg"), {}).get("args", []),
-                       "cfg_env": cfgmap.get(b.get("cfg"), {}).get("env") or {},
+                       "cfg_args": (cfgmap.get(b.get("cfg")) or xcfgmap.get(b.get("cfg")) or {}).get("args", []),
+                       "cfg_env": (cfgmap.get(b.get("cfg")) or xcfgmap.get(b.get("cfg")) or {}).get("env") or {},
                        "sql": [e.get("sql") for e in trace],
                        "failing_event": {k2: v for k2, v in (ev or {}).items() if k2 != "_history"}}, fh, indent=1)
         violations.append((b, rp))
